@@ -84,6 +84,7 @@ def check_array_safe(ctx: Ctx, rule: str, printer: str = "numpy", jax: bool = Fa
             )
             continue
         frs = emitted_fragments(M, printer, r.func)
+        chained: list[str] = []
         # ... and the texts the method can return as a whole (a function name chosen in a variable - `f"{func}({a}, {b})"`
         # with func = "max" - only shows when the pieces are put together)
         try:
@@ -100,13 +101,30 @@ def check_array_safe(ctx: Ctx, rule: str, printer: str = "numpy", jax: bool = Fa
                         return
                     if t_[0] == "s":
                         frs.append("".join(p_[1] if p_[0] == "lit" else "X" for p_ in t_[1]))
+                        # holes that can only hold literal texts (an operator chosen by a condition) are filled in,
+                        # every other hole is an operand: does the piece, read as Python, chain comparisons?
+                        variants = [""]
+                        for p_ in t_[1]:
+                            if p_[0] == "lit":
+                                alts = [p_[1]]
+                            else:
+                                h_ = p_[1]
+                                alts = [h_[1]] if h_[0] == "c" and isinstance(h_[1], str) else ([h_[2][1], h_[3][1]] if h_[0] == "if" and all(x_[0] == "c" and isinstance(x_[1], str) for x_ in h_[2:4]) else [" X "])
+                            variants = [v_ + a_ for v_ in variants for a_ in alts][:16]
+                        for v_ in variants:
+                            try:
+                                tree_ = ast.parse(v_.strip(), mode="eval")
+                            except SyntaxError:
+                                continue
+                            if any(isinstance(n_, ast.Compare) and len(n_.ops) > 1 for n_ in ast.walk(tree_)):
+                                chained.append(v_.strip())
                     for x_ in t_:
                         texts(x_)
 
                 texts(val_)
         except Exception:
             pass
-        bad = []
+        bad = [f"a chained comparison in {c_!r} (`a < b < c` is `a < b and b < c`: the truth value of an array)" for c_ in sorted(set(chained))[:2]]
         for fr in frs:
             for rx, what in SCALAR_ONLY:
                 if re.search(rx, fr):
@@ -288,3 +306,30 @@ def check_class_attr_overrides(ctx: Ctx, rule: str):
                 else:
                     ctx.undecided(rule, key, f"{g.name} overrides the class attribute `{name}` of {base.__name__}; its effect on what is printed is not judged", g.where(val))
             ctx.ok(rule, f"{g.rel}::{g.name}::class-attributes", f"class-level attributes {sorted(assigns)} do not replace reserved_words", g.where(), nontrivial=False)
+
+
+# what each function of the language is in numpy (either spelling where numpy has two); anything else is another function
+NUMPY_FUNCTIONS = {
+    "exp": ("numpy.exp",), "log": ("numpy.log",), "sin": ("numpy.sin",), "cos": ("numpy.cos",), "tan": ("numpy.tan",),
+    "asin": ("numpy.asin", "numpy.arcsin"), "acos": ("numpy.acos", "numpy.arccos"), "atan": ("numpy.atan", "numpy.arctan"),
+    "sinh": ("numpy.sinh",), "cosh": ("numpy.cosh",), "tanh": ("numpy.tanh",),
+    "asinh": ("numpy.asinh", "numpy.arcsinh"), "acosh": ("numpy.acosh", "numpy.arccosh"), "atanh": ("numpy.atanh", "numpy.arctanh"),
+    "Abs": ("numpy.abs", "numpy.absolute", "numpy.fabs"), "floor": ("numpy.floor",), "ceiling": ("numpy.ceil",), "Sqrt": ("numpy.sqrt",),
+    "log10": ("numpy.log10",), "log2": ("numpy.log2",), "log1p": ("numpy.log1p",), "expm1": ("numpy.expm1",),
+}
+
+
+def check_function_table(ctx: Ctx, rule: str, printer: str = "numpy"):
+    """The class table `_kf` decides which numpy function a function of the model becomes.  Every entry for a function the
+    language has (and its hyperbolic / inverse relatives, one typo away) names that same function."""
+    M = model(ctx)
+    kf = M.class_table(printer, "_kf")
+    if kf is None:
+        ctx.undecided(rule, f"{printer}-printer::_kf", "the function table of the printer could not be constant-folded", "")
+        return
+    producible = {name for _mod, name in pm.P_CLASSES}
+    for fn, wants in NUMPY_FUNCTIONS.items():
+        got = kf.get(fn)
+        if got is None and fn not in producible:
+            continue
+        ctx.check(got in wants, rule, f"{printer}-printer::_kf::{fn}", f"{fn} -> {got}", f"{printer} printer: the function table maps `{fn}` to {got!r}, which is not {wants[0]}: the generated code computes another function than the model text says", "")
